@@ -44,7 +44,7 @@ func vBlank(s string) bool {
 
 //verif:witness H_C17_flatten end
 //verif:bound C17 quick totality: every string of length 0..3 over the 15-symbol alphabet 'Ab1{}=,"\\.[]/ -' through the real lexer, parser (ANTLR runtime executed from SSA) and listener; flattening: generated expressions Type{...} with 0..2 assignments, 5 path shapes (incl. a field literally named 'type': the later assignment wins over the type name), 5 value kinds (identifier, string with 0..2 characters each a plain character from {x, space, /, {, newline} or an escape \\" \\\\ \\/ \\b \\f \\n \\r \\t, integer, float, nested expression with 0..1 assignment), 3 spacing modes, optional trailing comma, duplicate keys
-//verif:bound C17 thorough totality: every string of length 0..5 over the alphabet; flattening with 0..2 assignments (all later-value and spacing combinations) and nesting depth 2
+//verif:bound C17 thorough totality: every string of length 0..5 over the alphabet; flattening with 0..2 assignments (all later-value and spacing combinations) and nesting depth 2 (5 path shapes at the top level, 3 at depth 1, 2 at depth 2)
 //verif:assume C17 inputs are ASCII (the engine converts symbolic strings to runes for ASCII bytes only); longer inputs and other alphabets are outside the bound
 //verif:assume C17 the ANTLR runtime and the generated recogniser are executed as they are (no stub); their adaptive-prediction caches start from the state left by the engine's init phase on every path
 
@@ -91,7 +91,13 @@ func vGenEx(name string, depth, maxAsg, maxDepth int) *vEx {
 	for i := 0; i < n; i++ {
 		var a vAsg
 		if i == 0 {
-			a.path = vPaths[vChoose(name+"path", 5)]
+			if depth == 0 || vTier() == 0 {
+				a.path = vPaths[vChoose(name+"path", 5)]
+			} else if depth == 1 {
+				a.path = [3]string{"a", "a.b[1].c", "type"}[vChoose(name+"path", 3)]
+			} else {
+				a.path = [2]string{"a[0]", "type"}[vChoose(name+"path", 2)]
+			}
 			nk := 5
 			if depth >= maxDepth {
 				nk = 4
